@@ -370,7 +370,22 @@ def run(ctx):
     # --- spelling probes (dedicated segments; see PROBES)
     probe_chunks = []
     for flag, (uni, _key) in sorted(PROBES.items()):
-        cand = [c for c in chunks if c["u"] == uni and nsteps(c) >= 3]
+        # segments that exercise the spelling: a refused Add/Update naming a
+        # prefix / a state or an operation that has a mac identifier
+        g = gmap[uni]
+        bits = sum(1 << i for i, d in enumerate(g.uni["ids"]) if d[0] == ("net" if flag == "nethostbits" else "mac"))
+        nn = len(g.uni["names"])
+
+        def relevant(c):
+            a = c["steps"]
+            if flag == "maccolon8" and any((k // 4) & bits for k in g.keys[c["start"]][:nn]):
+                return True
+            for j in range(0, len(a), 7):
+                if a[j] in (1, 2) and a[j + 3] & bits and (a[j + 5] == 1 or flag == "maccolon8"):
+                    return True
+            return False
+
+        cand = [c for c in chunks if c["u"] == uni and relevant(c)]
         rng.shuffle(cand)
         for c in cand[:PROBE_SEGMENTS]:
             pc = dict(c)
